@@ -48,6 +48,10 @@ def histories(tier, seed):
         for calls in H.exhaustive_single(d1):
             out.append(H.mk_history("s%d" % n, calls, {"e1": kind}))
             n += 1
+        # the graph engines are separate classes: the same exploration one level shallower on graph spaces
+        for calls in H.exhaustive_single(d1 - 1):
+            out.append(H.mk_history("g%d" % n, calls, {"e1": kind}, cfgs=H.cfgs_for(kind, "graph")))
+            n += 1
     pairs = [("euler", "euler"), ("euler", "gillespie"), ("gillespie", "tauleap")]
     for k1, k2 in pairs:
         for calls in H.exhaustive_double(d2):
@@ -56,7 +60,8 @@ def histories(tier, seed):
     nr1, nr2 = (150, 90) if tier == "quick" else (3000, 1500)
     for i in range(nr1):
         kind = H.KINDS[i % 3]
-        out.append(H.mk_history("r%d" % n, H.random_history(rng, rng.randint(8, 40)), {"e1": kind}))
+        out.append(H.mk_history("r%d" % n, H.random_history(rng, rng.randint(8, 40)), {"e1": kind},
+                                cfgs=H.cfgs_for(kind, "graph" if i % 2 else "grid")))
         n += 1
     for i in range(nr2):
         k1, k2 = rng.choice(H.KINDS), rng.choice(H.KINDS)
@@ -92,8 +97,8 @@ def step_counts(rep):
     r = engine_rec.Runner()
     bad = 0
     for dt, tmax in [(0.1, 0.3), (0.1, 1.0), (0.25, 1.0), (0.3, 1.0), (1e-3, 0.0105), (0.7, 0.1), (0.5, 0.0), (0.1, 0.7)]:
-        for kind in ("euler", "tauleap"):
-            c = dict(system="birth", dt=dt, ts=[tmax], policy="no_sampling", seed=5)
+        for kind, space in (("euler", "grid"), ("tauleap", "grid"), ("euler", "graph"), ("tauleap", "graph")):
+            c = dict(system="birth", space=space, dt=dt, ts=[tmax], policy="no_sampling", seed=5)
             rf = r.ref(c, kind)
             if isinstance(rf, tuple):
                 rep.violation("step-count", "engine:ref-" + rf[0], {"cfg": c, "kind": kind})
@@ -105,7 +110,7 @@ def step_counts(rep):
                 bad += 1
                 rep.violation("step-count", "engine:fixed-step-count",
                               {"dt": dt, "tmax": tmax, "kind": kind, "steps": n, "expected": want, "ended": rf.ended})
-    rep.extra["step_count_cases"] = 16
+    rep.extra["step_count_cases"] = 32
 
 
 def run(tier, selftest=False, only=None):
